@@ -625,10 +625,8 @@ func checkFailedVerbIsError(c *Ctx, reach map[*ssa.Function][]string) {
 	p, r := c.P, c.R
 	n := 0
 	for f := range reach {
-		// only the verb handlers: functions whose callers include the dispatch function directly
-		if len(reach[f]) != 2 {
-			continue
-		}
+		// every function of the transaction's call tree that consumes a conditional write's
+		// (applied, error) pair — the verb handlers, wherever a refactor puts them below the dispatcher
 		for _, b := range f.Blocks {
 			for _, in := range b.Instrs {
 				call, ok := in.(*ssa.Call)
